@@ -57,7 +57,7 @@ func TestMain(m *testing.M) {
 // ---------------------------------------------------------------------------
 
 var setups = []string{"fresh", "parsed", "finished", "running", "running-deep", "running-mutex", "running-interrogated",
-	"susp-top", "susp-nested", "err-top", "err-nested", "finished-stale", "stopped", "mixed"}
+	"susp-top", "susp-nested", "susp-alias", "err-top", "err-nested", "finished-stale", "stopped", "mixed"}
 
 func (s *session) setup(name string) *hx.Failure {
 	run := func(steps ...string) *hx.Failure {
@@ -124,6 +124,8 @@ func (s *session) setup(name string) *hx.Failure {
 		return run("break flat:5", "start flat")
 	case "susp-nested":
 		return run("break nest:5", "start nest")
+	case "susp-alias":
+		return run("break alias:7", "start alias")
 	case "err-top":
 		return run("start err")
 	case "err-nested":
@@ -143,7 +145,7 @@ func (s *session) setup(name string) *hx.Failure {
 var setupLabel = map[string]string{
 	"fresh": "fresh", "parsed": "parsed", "finished": "finished", "running": "running",
 	"running-deep": "running-deep", "running-mutex": "running-mutex", "running-interrogated": "running-interrogated",
-	"susp-top": "susp-top", "susp-nested": "susp-nested", "err-top": "err-top", "err-nested": "err-nested",
+	"susp-top": "susp-top", "susp-nested": "susp-nested", "susp-alias": "susp-nested", "err-top": "err-top", "err-nested": "err-nested",
 	"finished-stale": "finished-stale", "stopped": "stopped", "mixed": "running+susp-nested",
 }
 
